@@ -618,30 +618,69 @@ func (e *Exec) ctxCancel(c *CtxV) {
 	e.ctxFinish(c, e.ctxGlobalErr("Canceled"), IfaceV{})
 }
 
-// fireTimer: called when no thread can run. Fires the earliest live deadline; false if there is none.
+// timerEnt is a pending timer: a context deadline or a time.After / NewTimer / NewTicker channel.
+type timerEnt struct {
+	deadline *Term
+	ctx      *CtxV
+	ch       *ChanObj
+	period   *Term // tickers re-arm
+	stopped  bool
+}
+
+func (t *timerEnt) live() bool {
+	if t.stopped {
+		return false
+	}
+	if t.ctx != nil {
+		return !t.ctx.done.closed
+	}
+	return true
+}
+
+// fireTimer: called when no thread can run. Fires the earliest live timer; false if there is none.
 func (e *Exec) fireTimer() bool {
-	var best *CtxV
+	var best *timerEnt
 	var bestOff uint64
-	for _, c := range e.timers {
-		if c.done.closed {
+	for _, t := range e.timers {
+		if !t.live() {
 			continue
 		}
-		_, off := splitAddConst(c.deadline)
+		_, off := splitAddConst(t.deadline)
 		if best == nil || sext(off, 64) < sext(bestOff, 64) {
-			best, bestOff = c, off
+			best, bestOff = t, off
 		}
 	}
 	if best == nil {
 		return false
 	}
+	e.timerFires++
+	if e.timerFires > 10000 {
+		panic(unsupported{"more than 10000 timer firings on one path"})
+	}
 	// the clock jumps to the deadline (never backwards)
 	e.now()
 	late := e.P.Cmp("bvsgt", best.deadline, e.P.BinBV("bvadd", e.clock0, e.clockAdv))
 	e.clockAdv = e.P.Ite(late, e.P.BinBV("bvsub", best.deadline, e.clock0), e.clockAdv)
-	cause := best.dlCause
-	e.ctxFinish(best, e.ctxGlobalErr("DeadlineExceeded"), cause)
-	e.timerFires++
+	if best.ctx != nil {
+		e.ctxFinish(best.ctx, e.ctxGlobalErr("DeadlineExceeded"), best.ctx.dlCause)
+		return true
+	}
+	if len(best.ch.buf) < best.ch.cap {
+		best.ch.buf = append(best.ch.buf, TimeV{NS: best.deadline})
+	}
+	if best.period != nil {
+		best.deadline = e.timeAdd(best.deadline, best.period)
+	} else {
+		best.stopped = true
+	}
 	return true
+}
+
+func (e *Exec) newTimerChan(d *Term, period *Term) (*timerEnt, ChanV) {
+	ch := &ChanObj{cap: 1, elem: e.namedType("time", "Time")}
+	t := &timerEnt{deadline: e.timeAdd(e.now().NS, d), ch: ch, period: period}
+	e.timers = append(e.timers, t)
+	return t, ChanV{C: ch}
 }
 
 type NativeFn func(args []Value) Value
